@@ -534,11 +534,13 @@ def safe_accessors(p):
 # driving one real process on the deterministic loop
 
 class Drive:
-    def __init__(self, prog, inputs=None, pid=None, status0=None, listener=True, on_entered=None, process=None, loop=None):
+    def __init__(self, prog, inputs=None, pid=None, status0=None, listener=True, on_entered=None, process=None, loop=None,
+                 loop_mode='own'):
         logging.disable(logging.CRITICAL)
         self.prog = prog
         self.loop = loop or detloop.DetLoop()
-        asyncio.set_event_loop(self.loop)
+        # the thread's current loop while the process is driven: its own, another one that never runs, or none at all
+        detloop.use_loop(self.loop, foreign={'own': False, 'foreign': True, 'none': 'none'}[loop_mode])
         self.loop.set_exception_handler(lambda l, c: None)
         self.cls, self.block = class_of(prog)
         if process is None:
